@@ -180,6 +180,60 @@ func findCalls(f *ssa.Function, anon bool, pats ...string) []ssa.CallInstruction
 	return out
 }
 
+// deepCall is a call found in f or, through single-caller helpers, in a
+// piece of f that was extracted into a helper.
+type deepCall struct {
+	Outer ssa.CallInstruction // the call in f itself (== Inner when direct)
+	Inner ssa.CallInstruction // the matching call
+}
+
+// findCallsDeep is findCalls that also looks into the single-caller helpers
+// f calls (an extracted piece of f is still f), three levels down.
+func findCallsDeep(f *ssa.Function, pats ...string) []deepCall {
+	var out []deepCall
+	var walk func(g *ssa.Function, outer ssa.CallInstruction, depth int)
+	walk = func(g *ssa.Function, outer ssa.CallInstruction, depth int) {
+		for _, ci := range callsIn(g) {
+			o := outer
+			if o == nil {
+				o = ci
+			}
+			if nameMatches(callName(ci.Common()), pats...) {
+				out = append(out, deepCall{Outer: o, Inner: ci})
+				continue
+			}
+			if callee := ci.Common().StaticCallee(); callee != nil && callee.Blocks != nil && depth < 3 && singleCallSite[callee] == ci {
+				walk(callee, o, depth+1)
+			}
+		}
+	}
+	walk(f, nil, 0)
+	return out
+}
+
+// findCallsDeepAny is findCallsDeep with an arbitrary predicate.
+func findCallsDeepAny(f *ssa.Function, match func(g *ssa.Function, ci ssa.CallInstruction) bool) []deepCall {
+	var out []deepCall
+	var walk func(g *ssa.Function, outer ssa.CallInstruction, depth int)
+	walk = func(g *ssa.Function, outer ssa.CallInstruction, depth int) {
+		for _, ci := range callsIn(g) {
+			o := outer
+			if o == nil {
+				o = ci
+			}
+			if match(g, ci) {
+				out = append(out, deepCall{Outer: o, Inner: ci})
+				continue
+			}
+			if callee := ci.Common().StaticCallee(); callee != nil && callee.Blocks != nil && depth < 3 && singleCallSite[callee] == ci {
+				walk(callee, o, depth+1)
+			}
+		}
+	}
+	walk(f, nil, 0)
+	return out
+}
+
 // callArgs returns the arguments without the receiver.
 func callArgs(cc *ssa.CallCommon) []ssa.Value {
 	if cc.IsInvoke() {
